@@ -11,6 +11,7 @@ as detokenise(tokenise(whole piece in one call on a fresh tokeniser)).
 from __future__ import annotations
 
 import copy
+import json
 import random
 import zlib
 
@@ -226,7 +227,7 @@ class TokWorld:
             return None
         fault = ev.get("fault", "none")
         if cl.next == 0:
-            fault = "none" if fault in ("deepcopy", "dictcopy") else fault
+            fault = "none" if fault in ("deepcopy", "dictcopy", "json") else fault
         if fault == "new_tok":
             cl.tok = make_tokeniser(self.cfg)
             cl.state = copy.deepcopy(cl.state)
@@ -235,6 +236,11 @@ class TokWorld:
             cl.state = copy.deepcopy(cl.state)
         elif fault == "dictcopy":
             cl.state = dict(cl.state)
+        elif fault == "json":
+            # the state dictionary persisted as JSON and read back after a crash: only what JSON carries survives
+            cl.tok = make_tokeniser(self.cfg)
+            cl.state = json.loads(json.dumps(cl.state))
+            cl.restarts += 1
         elif fault == "back_to_shared":
             cl.tok = self.shared
         if fault != "none":
@@ -302,8 +308,10 @@ class TokWorld:
 
 def gen_piece(rng, ntracks, values, pitch_range, nbars=None):
     nbars = nbars or rng.choice([1, 2, 2, 3, 3, 3, 4, 4, 5, 6])
-    sig = rng.choice(SIGS[:12])
-    p_change = rng.choice([0.0, 0.2, 0.5])
+    # a small palette per piece, so that a signature is left and *returned to* (A -> B -> A) often
+    palette = rng.sample(SIGS[:12], rng.choice([2, 2, 3])) if rng.random() < 0.75 else list(SIGS)
+    sig = rng.choice(palette)
+    p_change = rng.choice([0.0, 0.2, 0.5, 0.8])
     bars = []
     lo, hi = pitch_range
     pitches = [sorted({rng.randrange(lo, hi + 1) for _ in range(rng.randrange(1, 4))}) for _ in range(ntracks)]
@@ -312,7 +320,7 @@ def gen_piece(rng, ntracks, values, pitch_range, nbars=None):
     grid = rng.choice([2, 4, 6, 6, 12])
     for k in range(nbars):
         if k > 0 and rng.random() < p_change:
-            sig = rng.choice(SIGS)
+            sig = rng.choice([x for x in palette if x != sig] or palette)
         L = bar_len(*sig)
         tracks = []
         for tr in range(ntracks):
@@ -392,7 +400,7 @@ def tok_run_one(seed, tier, index):
             ci = rng.choice(live)
             fault = "none"
             if rng.random() < p_fault:
-                fault = rng.choice(["new_tok", "new_tok", "deepcopy", "dictcopy", "back_to_shared"])
+                fault = rng.choice(["new_tok", "new_tok", "deepcopy", "dictcopy", "back_to_shared", "json"])
             ev = {"client": ci, "fault": fault}
             events.append(ev)
             viol = world.apply(ev, len(events) - 1)
@@ -570,7 +578,7 @@ class C03Engine:
     def zero_cells(stats):
         want = ["reach_route/R1", "reach_route/R2", "reach_route/R3", "reach_sig/change_exactly_at_chunk_start",
                 "reach_sig/change_strictly_inside_chunk", "reach_empty/empty_bar_at_chunk_edge",
-                "reach_restart/streams_with_restart", "fault/new_tok", "fault/deepcopy", "fault/dictcopy",
+                "reach_restart/streams_with_restart", "fault/new_tok", "fault/deepcopy", "fault/dictcopy", "fault/json",
                 "fault/other_client_used_same_tokeniser_between_calls"]
         return [w for w in want if stats.get(w, 0) == 0]
 
